@@ -5,6 +5,8 @@ import (
 	"go/ast"
 	"go/token"
 	"go/types"
+	"os"
+	"path/filepath"
 	"sort"
 	"strings"
 )
@@ -184,6 +186,7 @@ func effectsPass(w *World, id string) []*OwnOb {
 			add(fi.Key+".effects[no-package-state]", "effects", bad == "", posStr(w, fi.Decl.Pos()), "writes the package-level variable "+bad+": evaluations are no longer independent of each other")
 		}
 		out = append(out, checkMapRanges(w, lib)...)
+		out = append(out, checkPackageVars(w)...)
 	case "C05":
 		out = append(out, checkFormatTable(w)...)
 	case "C20":
@@ -716,4 +719,58 @@ func checkFormatTable(w *World) []*OwnOb {
 		ob("every format encodes and decodes", complete && len(table) > 0, "every registered format needs both MarshalStream and UnmarshalStream"),
 		ob("codecs match their names", strings.HasPrefix(table["toml"].m, "toml") && strings.HasPrefix(table["toml"].u, "toml") && strings.HasPrefix(table["yaml"].m, "yaml") && strings.HasPrefix(table["yaml"].u, "yaml") && strings.HasPrefix(table["json"].m, "json") && strings.HasPrefix(table["json"].u, "json"), "each format must be registered with the codec functions of its own name"),
 	}
+}
+
+// checkPackageVars: C09 — the set of package-level variables is the allow-listed, read-only one. A new package-level
+// variable (a cache, a memo, a shared buffer) is shared mutable state between evaluations until shown otherwise.
+func checkPackageVars(w *World) []*OwnOb {
+	allowed := map[string]bool{}
+	prefixes := []string{}
+	if b, err := os.ReadFile(filepath.Join(verifDir, "spec", "globals.allow")); err == nil {
+		for _, l := range strings.Split(string(b), "\n") {
+			l = strings.TrimSpace(l)
+			if l == "" || strings.HasPrefix(l, "#") {
+				continue
+			}
+			name := strings.Fields(l)[0]
+			if strings.HasSuffix(name, "*") {
+				prefixes = append(prefixes, strings.TrimSuffix(name, "*"))
+			} else {
+				allowed[name] = true
+			}
+		}
+	}
+	var out []*OwnOb
+	var dirs []string
+	for d := range w.Pkgs {
+		dirs = append(dirs, d)
+	}
+	sort.Strings(dirs)
+	for _, dir := range dirs {
+		p := w.Pkgs[dir]
+		var extra []string
+		sc := p.Types.Scope()
+		for _, n := range sc.Names() {
+			v, ok := sc.Lookup(n).(*types.Var)
+			if !ok {
+				continue
+			}
+			if strings.HasSuffix(w.Fset.Position(v.Pos()).Filename, "_test.go") {
+				continue
+			}
+			key := dir + ":" + n
+			ok2 := allowed[key]
+			for _, pf := range prefixes {
+				if strings.HasPrefix(key, pf) {
+					ok2 = true
+				}
+			}
+			if !ok2 {
+				extra = append(extra, n)
+			}
+		}
+		out = append(out, &OwnOb{Key: dir + ":package.effects[package-level variables]", Kind: "effects", OK: len(extra) == 0,
+			Pos: dir, Why: "package-level variables outside the read-only allow-list (spec/globals.allow): " + strings.Join(extra, ", ") + " — state shared by all evaluations in the process"})
+	}
+	return out
 }
